@@ -7,5 +7,5 @@ CONSTANTS
   FE = 3
 SPECIFICATION SplitSpec
 CHECK_DEADLOCK FALSE
-INVARIANTS TypeOK LoopInv Disjoint ExactCover Chain SameAsSplit Bounded MatchIff ChainSound EnumCountOK
+INVARIANTS TypeOK LoopInv Disjoint ExactCover Chain SameAsSplit Bounded MatchIff ChainSound EnumCountOK EnumLinear
 PROPERTY Termination
